@@ -1,0 +1,40 @@
+//go:build verif
+
+package sack
+
+import (
+	"net/netip"
+
+	"github.com/DataDog/datadog-traceroute/common"
+	"github.com/DataDog/datadog-traceroute/packets"
+)
+
+// VerifDriver wraps the unexported sackDriver for the verification harness.
+type VerifDriver struct{ d *sackDriver }
+
+// VerifNewDriver builds the real SACK driver over the given sink/source.
+func VerifNewDriver(params Params, local netip.Addr, sink packets.Sink, source packets.Source) (*VerifDriver, error) {
+	d, err := newSackDriver(params, local, sink, source)
+	if err != nil {
+		return nil, err
+	}
+	return &VerifDriver{d: d}, nil
+}
+
+// Driver returns the driver as the engine sees it.
+func (v *VerifDriver) Driver() common.TracerouteDriver { return v.d }
+
+// ReadHandshake runs the real handshake reader.
+func (v *VerifDriver) ReadHandshake(localPort uint16) error { return v.d.ReadHandshake(localPort) }
+
+// HandshakeState returns what the handshake established.
+func (v *VerifDriver) HandshakeState() (ok bool, initSeq, initAck uint32, hasTS bool, tsValue, tsEcr uint32) {
+	if v.d.state == nil {
+		return false, 0, 0, false, 0, 0
+	}
+	s := v.d.state
+	return true, s.localInitSeq, s.localInitAck, s.hasTS, s.tsValue, s.tsEcr
+}
+
+// Close closes the driver.
+func (v *VerifDriver) Close() { v.d.Close() }
